@@ -17,7 +17,8 @@ ASSUMPTIONS = ["requests are logged by the instrumented nodes immediately before
                "g++-12 -O1 build of the working tree with harness-side shims"]
 FLOORS = {"requests_honoured": {"quick": 3000, "thorough": 40000}, "cycles_compared": {"quick": 4000, "thorough": 50000},
           "next_time_checks": {"quick": 4000, "thorough": 50000}, "requests_beyond_end": {"quick": 50, "thorough": 500},
-          "nested_requests": {"quick": 200, "thorough": 2000}, "dynamic_child_runs_compared": {"quick": 1500, "thorough": 25000}}
+          "nested_requests": {"quick": 200, "thorough": 2000}, "dynamic_child_runs_compared": {"quick": 1500, "thorough": 25000},
+          "combiner_requests_honoured": {"quick": 2000, "thorough": 30000}}
 BATCH = 25
 
 
@@ -35,7 +36,37 @@ def generate(rng, tier, seed):
         c = gen_case12(rng, f"c02_{seed}_sw{k}", k) if k % 2 else gen_case10(rng, f"c02_{seed}_mp{k}", k)
         c.meta["delegate"] = "c12" if "spec" in c.meta else "c10"
         cases.append(c)
+    for k in range(n // 4):
+        cases.append(gen_reduce_timers(rng, f"c02_{seed}_rd{k}"))
     return cases
+
+
+def gen_reduce_timers(rng, name):
+    """A reduction whose combiner graphs contain self-scheduling nodes: the reduce node owns ONE schedule slot for all its
+    combiners, so every evaluation (value tick, key added or removed, tree rebuilt or grown) must leave the earliest pending
+    combiner wake-up armed. Oracle: trace only - every request made inside a combiner that is still alive at its time is
+    honoured by an evaluation of the requesting node at exactly that time."""
+    from .prog import Case, S
+    from .c10 import gen_key_history
+    end = rng.choice([30, 45, 60])
+    c = Case(name, 0, end)
+    hist = gen_key_history(rng, 0, end, rng.choice([4, 6, 9]))
+    if rng.random() < 0.6:
+        hist = [e for e in hist if "c" != e.split("|")[1]]
+    if rng.random() < 0.5:
+        # a stable tree of several combiners whose leaves keep ticking at different times: several different wake-ups are
+        # pending in different combiners while the node is evaluated for value ticks
+        keys = rng.sample(range(9), rng.choice([3, 4, 5, 7]))
+        hist = ["1|" + ",".join(f"[{k}]={k * 1000 + 1}" for k in keys)]
+        for t in sorted(rng.sample(range(2, end), min(end - 2, rng.choice([6, 10, 16])))):
+            hist.append(f"{t}|" + ",".join(f"[{k}]={k * 1000 + t}" for k in rng.sample(keys, rng.choice([1, 1, 2]))))
+    c.cscripts[1] = hist
+    k1, k2 = rng.choice([3, 5, 10]), rng.choice([2, 7])
+    c.graphs["fn1"] = [S("x", "sum2", "p0", "p1"), S("t1", "delay", "p0", uid=101, k=k1), S("t2", "delay", "x", uid=102, k=k2),
+                       S("w", "pass", "t1", uid=103), S("", "RET", "x")]
+    c.graphs["main"] = [S("d", "csrc", shape="tsd", uid=1), S("r", "reduce", "d", fn="fn2:1"), S("", "rec", "r", uid=50)]
+    c.meta["kind2"] = "reduce_timers"
+    return c
 
 
 def root_cycle_info(run):
@@ -79,7 +110,53 @@ def check(case, tr):
         r.counters = {"dynamic_child_cases": 1, "dynamic_child_runs_compared": r.counters.get("instance_runs_compared", 0),
                       "dynamic_child_timer_runs": r.counters.get("timer_runs_in_instances", 0)}
         return r
+    if case.meta.get("kind2") == "reduce_timers":
+        return check_reduce_timers(case, tr)
     return check_core(case, tr)
+
+
+def check_reduce_timers(case, tr):
+    res = Result(signature=case.text().split("\n", 1)[1])
+    if tr.build_error or tr.runs[0].error:
+        res.violations.append(Violation(f"build/run failed: {tr.build_error or tr.runs[0].error}"))
+        return res
+    run = tr.runs[0]
+    cycles, evals_at, open_t, reqs, stopped = [], {}, {}, [], {}
+    tnow = None
+    for seq, kind, tk in run.events:
+        if kind == "C<":
+            gid, t = int(tk[0]), int(tk[1])
+            open_t[gid] = t
+            if gid == 0:
+                cycles.append(t)
+                tnow = t
+        elif kind == "C>":
+            open_t.pop(int(tk[0]), None)
+        elif kind == "E<":
+            gid, idx = int(tk[0]), int(tk[1])
+            if gid in open_t:
+                evals_at.setdefault((gid, idx), set()).add(open_t[gid])
+        elif kind == "u.req":
+            reqs.append((int(tk[0]), int(tk[1]), int(tk[2]), int(tk[3]), int(tk[4]), tk[5]))
+        elif kind == "G->":
+            stopped[int(tk[0])] = tnow
+    honoured = retired = 0
+    for uid, gid, idx, t_made, t_when, phase in reqs:
+        if t_when <= t_made or t_when >= case.end:
+            continue
+        if gid in stopped and stopped[gid] is not None and stopped[gid] <= t_when:
+            retired += 1              # the combiner was retired before its wake-up fell due
+            continue
+        if t_when not in evals_at.get((gid, idx), ()):
+            res.violations.append(Violation(f"wake-up requested at t={t_made} for t={t_when} by uid {uid} inside combiner graph {gid} (alive "
+                                            f"at that time) was not honoured: {'no root cycle at that time' if t_when not in cycles else 'the node was not evaluated in that cycle'}"))
+            if len(res.violations) >= 4:
+                break
+            continue
+        honoured += 1
+    res.counters = {"combiner_requests_honoured": honoured, "combiner_requests_retired": retired}
+    res.nontrivial = honoured >= 4
+    return res
 
 
 def check_core(case, tr):
